@@ -12,6 +12,7 @@ var props = map[string]propCfg{
 		Rule: "patch bytes: every prefix of every repository patch (exhaustive sweep), hostile constants in 7 frames, and generated inputs " +
 			"(random bytes, structured text, 1-3 token mutations of repository patches, template-grammar ill-typed patches) crossed with repository test inputs " +
 			"and generated targets in which the minus side occurs; run through patch.Parse+Apply behind recover and a 10 s watchdog, a sample also through the CLI. " +
+			"The template grammar also plants targets in which an optional part that the pattern fills with a metavariable is absent (plain break / continue / return, a[:], no receiver, no result, no initialiser, embedded field, switch without tag ...; 40 templates) and uses elisions in lists that must not be empty (x := ..., ... = f(), var x = ..., case ...:, go ..., x[...]). " +
 			"Non-trivial = the patch got past sectioning and metavariable parsing (reached pgo/engine, or crashed); distinct by sha256(patch, target).",
 		Assumptions: []string{
 			"a hang is 'no return within 10 s' for inputs of at most a few KB (normal run time is below 5 ms)",
@@ -77,6 +78,7 @@ var props = map[string]propCfg{
 			"Part 1 enumerates the table (43 shapes x 32 markers x 3 styles: well-formed '// Code generated <text> DO NOT EDIT.', 4 well-formed and 17 near-miss spellings, 4 @generated forms and 5 near-misses, both on one line, an ordinary remark; 4067 entries; detached header / package doc / indented / after another comment / same line as package / after the clause / declaration doc / function body / end of file; with licence, //go:build and package-doc blocks around it): quick = every entry in place with the flag, plus one other mode with the flag and one mode without it for every entry that is not must-process and for half of the others; thorough = full cross product (24 configurations per entry). " +
 			"Part 2 draws random compositions (0-5 header blocks, several markers, drawn <text>, one-character edits of a well-formed marker, @generated in context). " +
 			"Oracle: three-valued reference predicate computed from the file bytes by a hand-written lexer (README wording + property statement): must-skip -> gen.go bytes/mtime/inode identical, nothing about it on stdout/stderr, exit 0, siblings exactly as in a run without the flag where gen.go is absent; must-process -> exit/stdout/stderr/files identical to the run without the flag; either -> one of the two, nothing in between; flag off -> identical (modulo the letters of the marker line) to the same file with the marker replaced by an innocuous comment. " +
+			"Header shapes include licence blocks of 7 KB and 70 KB before the marker or between marker and package clause, and a long block comment after the clause (nothing may depend on a fixed-size read-ahead). " +
 			"Non-trivial = the file carries at least one marker or near-miss (anything but an ordinary remark); distinct by sha256(file, configuration).",
 		Assumptions: []string{
 			"'package doc comment' = the comment group ending on the line directly above the package keyword; '@generated' counts as must-skip only as a word of its own",
@@ -189,6 +191,7 @@ var props = map[string]propCfg{
 		Quick:    tierCfg{Shards: 8, Checks: 4, Timeout: 4 * time.Minute},
 		Thorough: tierCfg{Shards: 16, Checks: 45, Timeout: 30 * time.Minute},
 		Rule: "mode faults: a tree of 2-4 Go files (names drawn so that the written files are first / middle / last in path order, in subdirectories, *_test.go; sizes from 70 B to 40 KB, sometimes ascending) and a patch (-cnt(x)/+cnt(x + 1), a generated patch + host from the shared model generator, or both, via -p or -P) that rewrites a drawn subset, passed as a directory, ./dir/..., dir/ or explicit files. " +
+			"One fault case in eight gives a file a 239-byte base name, for which no temporary sibling can be created; such a case is judged when the fault-free run copes with the name. " +
 			"A fault-free run defines the patched bytes; a fault-free run under a ptrace injector lists every system call (openat, read, write, close, rename*, chmod*, chown*, fsync, unlink*, link*, truncate* ...) that touches a file of the tree or a new entry below it (temporary files), across all threads, in order. " +
 			"Every listed call is failed once with each of ENOSPC / EIO / EACCES (read side: EACCES / EIO) and, separately, the process is SIGKILLed on entry to it; the run is also repeated under RLIMIT_FSIZE = N for N in {0..16, a stride through each output size, size-1}. Two fixed trees are enumerated completely in every run (split between the shards), the others are drawn. " +
 			"mode kinds (a complete table over a 3-file tree plus drawn compositions): unparseable source (6 fixed shapes, drawn cuts/insertions), a change whose + side uses an unbound metavariable, a change whose result does not parse, a target whose open fails with EACCES (alone and before/after another failing file), a missing path at each argument position, and a missing / unreadable / directory patch at each position of three patches given with -p or inside a -P list, and the -P list itself. " +
